@@ -4,11 +4,17 @@
 // memory backend for (object, relation) x user filter of generated scenarios, plus the real Check
 // for every returned entry and for every concrete user / userset of the filter shape in the data.
 // In a quarter of the scenarios up to three (write-valid) tuples are taken out of the store and
-// sent as contextual tuples of every request instead (the models see stored + contextual).
+// sent as contextual tuples of every request instead (the models see stored + contextual); half
+// of the time they ALSO stay in the store (every such tuple is then found twice).
+// Follow-up requests of an answered request: result limits equal to the number of returned users,
+// +1, +2 (WithListUsersMaxResults); single-read fault injection (every read key of the request in
+// turn); delayed reads of one object (both arrival orders of two sources of one user).
 //
 // Record: 1 model conds tuples atoms requests checks
 //
-//	request = ( ot oi r ftype frel depth limit edges outcome ( subject ... ) )
+//	request = ( ot oi r ftype frel depth limit edges outcome ( subject ... ) mode )
+//	  mode 0 plain | 1 the Reads of one object#relation fail (injected error) | 2 the Reads of one
+//	  object are delayed until the other reads are done (arrival order of the found users)
 //	  frel 0 = no relation; limit 0 = unlimited; edges 0/1 = doesHavePossibleEdges (2 = error,
 //	  3 = not consulted); outcome 0 ok | 3 cond error | 4 depth error | 5 other error | 6 timeout
 //	  | 8 validation: type not found | 9 validation: relation not found | 10 validation: other
@@ -48,6 +54,21 @@ type request struct {
 	FRel  string `json:"frel,omitempty"`
 	Depth int    `json:"depth"`
 	Limit int    `json:"limit,omitempty"`
+	// FaultKey: every datastore Read of this object#relation fails during the request.
+	FaultKey string `json:"fault,omitempty"`
+	// DelayObj: the Reads of this object are delayed until the other reads are done.
+	DelayObj string `json:"delay,omitempty"`
+}
+
+func (q request) plain() bool { return q.Limit == 0 && q.FaultKey == "" && q.DelayObj == "" }
+func (q request) mode() int {
+	switch {
+	case q.FaultKey != "":
+		return 1
+	case q.DelayObj != "":
+		return 2
+	}
+	return 0
 }
 
 type filter struct{ t, r string }
@@ -141,6 +162,15 @@ func genRequests(s *scen.Scenario, r *rec.Rand, objects []string, maxReq int) []
 	return all
 }
 
+func lastHash(k string) int {
+	for i := len(k) - 1; i >= 0; i-- {
+		if k[i] == '#' {
+			return i
+		}
+	}
+	return len(k)
+}
+
 func userString(u *openfgav1.User) string { return string(tuple.UserProtoToString(u)) }
 
 type runner struct {
@@ -190,7 +220,7 @@ func possibleEdges(ts *typesystem.TypeSystem, q request) int {
 	return 0
 }
 
-func (rn *runner) listUsers(s *scen.Scenario, q request) (int, []string) {
+func (rn *runner) listUsers(s *scen.Scenario, q request, ds storage.RelationshipTupleReader) (int, []string) {
 	ot, oid := scen.SplitObj(q.Obj)
 	ctx := typesystem.ContextWithTypesystem(rn.ctx, rn.env.TS)
 	req := &openfgav1.ListUsersRequest{
@@ -217,7 +247,7 @@ func (rn *runner) listUsers(s *scen.Scenario, q request) (int, []string) {
 		}
 		return 10, nil
 	}
-	lq := listusers.NewListUsersQuery(rn.env.DS, ctxKeys,
+	lq := listusers.NewListUsersQuery(ds, ctxKeys,
 		listusers.WithResolveNodeLimit(uint32(q.Depth)),
 		listusers.WithListUsersMaxResults(uint32(q.Limit)),
 		listusers.WithListUsersDeadline(20*time.Second),
@@ -242,7 +272,7 @@ func (rn *runner) listUsers(s *scen.Scenario, q request) (int, []string) {
 	return scen.OutAllowed, us
 }
 
-func runScenario(ctx context.Context, w *rec.Writer, r *rec.Rand, s *scen.Scenario, reqs []request, ctxKeys []string, replay bool, maxReq int) {
+func runScenario(ctx context.Context, w *rec.Writer, r *rec.Rand, s *scen.Scenario, reqs []request, ctxKeys []string, ctxDup bool, replay bool, maxReq int) {
 	env, err := scen.NewEnv(ctx, s)
 	if err != nil {
 		if errors.Is(err, scen.ErrModelRejected) {
@@ -276,7 +306,10 @@ func runScenario(ctx context.Context, w *rec.Writer, r *rec.Rand, s *scen.Scenar
 	rn := &runner{ctx: ctx, w: w, env: env, in: in, resolver: resolver, checks: map[string]map[[2]string]int{}}
 	// some tuples travel as contextual tuples of the requests instead of being stored (only tuples
 	// that pass the write validation: anything else makes the request itself invalid)
-	if !replay && r.Chance(1, 4) {
+	twoSrc := s.Shape == "lu-two-sources"
+	if !replay && (r.Chance(1, 4) || (twoSrc && r.Chance(1, 2))) {
+		// half of the time the tuple stays in the store as well: found twice by every read
+		ctxDup = r.Chance(1, 2)
 		idx := make([]int, len(s.Tuples))
 		for i := range idx {
 			idx[i] = i
@@ -303,8 +336,12 @@ func runScenario(ctx context.Context, w *rec.Writer, r *rec.Rand, s *scen.Scenar
 				dels = append(dels, &openfgav1.TupleKeyWithoutCondition{Object: t.Obj, Relation: t.Rel, User: t.User})
 			}
 		}
-		if err := env.DS.Write(ctx, env.StoreID, dels, nil); err != nil {
-			panic(err)
+		if !ctxDup {
+			if err := env.DS.Write(ctx, env.StoreID, dels, nil); err != nil {
+				panic(err)
+			}
+		} else {
+			w.Stat("scenarios_with_duplicated_contextual_tuples", 1)
 		}
 		w.Stat("scenarios_with_contextual_tuples", 1)
 		w.Stat("contextual_tuples", len(rn.ctxT))
@@ -317,9 +354,87 @@ func runScenario(ctx context.Context, w *rec.Writer, r *rec.Rand, s *scen.Scenar
 		}
 	}
 	var rvs []rec.V
-	for _, q := range reqs {
+	faultBudget, delayBudget := 2, 1
+	if twoSrc {
+		delayBudget = 4
+	}
+	for i := 0; i < len(reqs); i++ {
+		q := reqs[i]
 		ot, _ := scen.SplitObj(q.Obj)
-		out, users := rn.listUsers(s, q)
+		var ds storage.RelationshipTupleReader = env.DS
+		if q.FaultKey != "" || q.DelayObj != "" {
+			ds = &ctlDS{OpenFGADatastore: env.DS, failKey: q.FaultKey, delayObj: q.DelayObj}
+		}
+		out, users := rn.listUsers(s, q, ds)
+		if q.FaultKey != "" {
+			w.Stat("fault_requests", 1)
+			if out == 0 {
+				w.Stat("fault_answered_ok", 1)
+			}
+		}
+		if q.DelayObj != "" {
+			w.Stat("delayed_requests", 1)
+		}
+		// follow-up requests derived from a plain, answered request (generated runs only; a replay
+		// carries them in its request list)
+		if !replay && q.plain() && out == 0 && len(users) > 0 {
+			// result limit around the number of distinct users: exactly, +1, +2
+			if r.Chance(1, 5) || (twoSrc && r.Chance(1, 2)) {
+				x := q
+				x.Limit = len(users) + r.Intn(3)
+				reqs = append(reqs, x)
+				if r.Chance(1, 2) {
+					y := q
+					y.Limit = len(users) + r.Intn(3)
+					if y.Limit != x.Limit {
+						reqs = append(reqs, y)
+					}
+				}
+			}
+			wantFault := faultBudget > 0 && r.Chance(1, 3)
+			wantDelay := delayBudget > 0 && (r.Chance(1, 10) || (twoSrc && q.FType == "user" && q.Rel != "allowed"))
+			if wantFault || wantDelay {
+				recDS := &ctlDS{OpenFGADatastore: env.DS}
+				rn.listUsers(s, q, recDS)
+				keys := recDS.readKeys()
+				if wantFault && len(keys) > 0 {
+					faultBudget--
+					ks := append([]string{}, keys...)
+					rec.Shuffle(r, ks)
+					if len(ks) > 5 {
+						ks = ks[:5]
+					}
+					for _, k := range ks {
+						x := q
+						x.FaultKey = k
+						reqs = append(reqs, x)
+					}
+				}
+				if wantDelay {
+					var objs []string
+					seen := map[string]bool{}
+					for _, k := range keys {
+						on := k[:lastHash(k)]
+						if !seen[on] && on != q.Obj {
+							seen[on] = true
+							objs = append(objs, on)
+						}
+					}
+					if len(objs) > 0 {
+						delayBudget--
+						rec.Shuffle(r, objs)
+						if len(objs) > 4 {
+							objs = objs[:4]
+						}
+						for _, o := range objs {
+							x := q
+							x.DelayObj = o
+							reqs = append(reqs, x)
+						}
+					}
+				}
+			}
+		}
 		edges := 3
 		if out < 8 {
 			edges = possibleEdges(env.TS, q)
@@ -384,7 +499,7 @@ func runScenario(ctx context.Context, w *rec.Writer, r *rec.Rand, s *scen.Scenar
 			frel = in.R(q.FRel)
 		}
 		rvs = append(rvs, rec.L(a, b, rec.I(in.R(q.Rel)), rec.I(in.T(q.FType)), rec.I(frel),
-			rec.I(q.Depth), rec.I(q.Limit), rec.I(edges), rec.I(out), rec.L(uvs...)))
+			rec.I(q.Depth), rec.I(q.Limit), rec.I(edges), rec.I(out), rec.L(uvs...), rec.I(q.mode())))
 	}
 	var cvs []rec.V
 	for _, sub := range rn.order {
@@ -410,7 +525,7 @@ func runScenario(ctx context.Context, w *rec.Writer, r *rec.Rand, s *scen.Scenar
 		}
 		cvs = append(cvs, rec.L(in.Subject(sub), rec.L(pxs...), rec.L(res...)))
 	}
-	desc := map[string]any{"scenario": s, "requests": reqs, "ctx": ctxKeys, "text": s.String()}
+	desc := map[string]any{"scenario": s, "requests": reqs, "ctx": ctxKeys, "ctxdup": ctxDup, "text": s.String()}
 	if len(reqs) == 0 {
 		desc["nt"] = false
 	}
@@ -439,11 +554,12 @@ func main() {
 				Scenario *scen.Scenario `json:"scenario"`
 				Requests []request      `json:"requests"`
 				Ctx      []string       `json:"ctx"`
+				CtxDup   bool           `json:"ctxdup"`
 			}
 			if json.Unmarshal(sc.Bytes(), &d) != nil || d.Scenario == nil {
 				continue
 			}
-			runScenario(ctx, w, rec.NewRand(1), d.Scenario, d.Requests, d.Ctx, true, maxReq)
+			runScenario(ctx, w, rec.NewRand(1), d.Scenario, d.Requests, d.Ctx, d.CtxDup, true, maxReq)
 		}
 		return
 	}
@@ -451,11 +567,13 @@ func main() {
 	for i := 0; i < o.N; i++ {
 		rr := r.Fork()
 		var s *scen.Scenario
-		if rr.Chance(1, 2) {
+		if x := rr.Intn(8); x < 3 {
 			s = luScenario(rr)
+		} else if x == 3 {
+			s = twoSourceScenario(rr)
 		} else {
 			s = scen.Generate(rr, scen.DefaultOpts())
 		}
-		runScenario(ctx, w, rr, s, nil, nil, false, maxReq)
+		runScenario(ctx, w, rr, s, nil, nil, false, false, maxReq)
 	}
 }
